@@ -1152,7 +1152,7 @@ func main() {
 	}
 	// the same property through the application layer (feature-set plumbing of api.go / graphqlws.go)
 	nAPI, nWS := run.Scale(30, 200), run.Scale(6, 30)
-	for i, tries := 0, 0; i < nAPI && tries < nAPI*30; tries++ {
+	for i, tries := 0, 0; i < nAPI && tries < nAPI*200; tries++ {
 		r := run.Rand.Fork()
 		spec := genSpec(r)
 		if !apiCompatible(spec) {
@@ -1160,6 +1160,9 @@ func main() {
 		}
 		if i%2 == 0 && !hasConnection(spec) {
 			continue // every other mounted schema has apifu connections (with their own edge fields)
+		}
+		if i%3 == 1 && spec.Subscription == "" {
+			continue // every third one has a subscription root (events over the sockets)
 		}
 		if _, err := buildSchema(spec, &world{orig: expand(spec), F: map[string]bool{}}); err != nil {
 			continue
@@ -1181,6 +1184,21 @@ func main() {
 				}
 				d := genDoc(r.Fork(), origX, G)
 				out = append(out, query{Kind: "doc", Label: "doc", Text: d.text(), Vars: d.Vals, doc: d})
+			}
+			if origX.Subscription != "" {
+				// subscriptions: over a socket every delivered event is executed separately
+				for j := 0; j < 3; j++ {
+					G := allF
+					if j == 0 {
+						G = fset(F)
+					}
+					for tries := 0; tries < 60; tries++ {
+						if d := genDoc(r.Fork(), origX, G); d.Op == "subscription" {
+							out = append(out, query{Kind: "doc", Label: "subscription", Text: d.text(), Vars: d.Vals, doc: d})
+							break
+						}
+					}
+				}
 			}
 			return out
 		}
